@@ -40,7 +40,7 @@ def check_nonneg(ctx, ver, w, op, rep, pre_hold):
     if hold is None or (hold < 0 <= pre_hold):
         ctx.violate(f"gmx.v{ver}.{op['kind']}.negative_holding", f"{op['kind']} leaves the share holding at {m.glp_amount if ver == 1 else m.amount}", rep)
     for k, a in w.broker.assets.items():
-        if a.balance < 0:
+        if not G.is_finite_num(a.balance) or a.balance < 0:
             ctx.violate(f"gmx.v{ver}.{op['kind']}.negative_wallet", f"{op['kind']} leaves wallet {k.name} = {a.balance}", rep)
 
 
@@ -65,7 +65,7 @@ def run_v1(ctx: Ctx, n: int):
             pre = w.dump()
             t = w.token(op["tok"])
             touched = F(w.broker.assets[t].balance) if t in w.broker.assets else F(0)
-            req = {"fn": "gmx1.step", "env": w.env_json(), "state": {"glp": pre["glp"], "reward": pre["reward"], "wallet": pre["wallet"]}, "op": G.v1_op_json(op, w)}
+            req = w.step_request(pre, w.env_json(), op)
             out, res, acts = w.apply(op)
             pending.append((op, out, res, acts, w.dump(), rep, req))
             ctx.impl_traces += 1
@@ -135,7 +135,14 @@ def run_v2(ctx: Ctx, n: int):
             out, res, acts = w.apply(op)
             pending.append((op, out, res, acts, w.dump(), rep, req))
             ctx.impl_traces += 1
-            v1 = v2_net_value(w)
+            try:
+                v1 = v2_net_value(w)
+            except (ZeroDivisionError, ValueError, OverflowError):
+                # the account can no longer be valued (a holding on a row without supply, or a non-finite number in the state): the value
+                # clause cannot be evaluated; the holdings themselves are still judged
+                ctx.count("v2_value_undefined_after_op")
+                check_nonneg(ctx, 2, w, op, rep, F(pre["amount"]))
+                break
             allowance = DUST * touched + F(1, 10 ** 12) * abs(v0)          # float noise of the valuation itself: 1e-12 relative
             imp = "0"
             if out == "ok" and op["kind"] == "deposit":
@@ -165,9 +172,12 @@ def run(ctx: Ctx):
     G.cap_violations(ctx)
     run_v1(ctx, ctx.scale(350, 8000))
     run_v2(ctx, ctx.scale(500, 10000))
+    G.special_stream(ctx, ctx.scale(400, 6000), "gmx.")
 
 
 def replay(ctx: Ctx, case) -> bool:
+    if "special" in case:
+        return G.special_replay(case, "gmx.")
     sp = case["world"]
     ok = True
     if sp["ver"] == 1:
